@@ -788,6 +788,17 @@ def run_emit(cases):
                 pm = J.parse_message(json.loads(json.dumps(d)))
                 pd = pm.model_dump(exclude_none=True)
                 f["parsed"] = {"env": env_class(pd), "tree": tag(pd), "cls": type(pm).__name__}
+                # the other reading the library offers: the unified class, narrowed to the specific one
+                # and widened again, must say the same
+                try:
+                    uni = J.JSONRPCMessage.model_validate(json.loads(json.dumps(d)))
+                    spec_ = uni.to_specific_type()
+                    back = J.JSONRPCMessage.from_specific_type(spec_)
+                    f["parsed"]["unifiedSame"] = bool(tag(spec_.model_dump(exclude_none=True)) == tag(pd) and tag(back.model_dump(exclude_none=True)) == tag(pd)
+                                                      and tag(uni.model_dump(exclude_none=True)) == tag(pd))
+                except Exception as e:
+                    f["parsed"]["unifiedSame"] = False
+                    f["parsed"]["unifiedExc"] = type(e).__name__
             except Exception as e:
                 f["parsed"] = {"env": {"obj": False}, "tree": ["null"], "cls": "rejected:" + type(e).__name__}
             r["forms"][name] = f
